@@ -274,6 +274,20 @@ func (c *SpecCtx) call(e *ast.CallExpr) TT {
 				return TT{T: eq(h1, h0), Ty: boolT}
 			}
 			return TT{T: mk(SBool, fmt.Sprintf("(forall ((r Int)) (! (=> (< r %s) (= (select %s r) (select %s r))) :pattern ((select %s r))))", c.old.alloc.S, h1.S, h0.S, h1.S)), Ty: boolT}
+		case "onlybase":
+			// onlybase("S$Val", s): in that slice heap only the backing array of s may differ from the old state
+			if c.old == nil {
+				c.failf("onlybase() needs an old state")
+			}
+			hn := strings.Trim(e.Args[0].(*ast.BasicLit).Value, "\"")
+			x := c.tr(e.Args[1])
+			srt := c.st.hsorts[hn]
+			if srt == "" {
+				srt = c.ex.heapSortByName(hn)
+			}
+			h1 := c.ex.heap(c.st, hn, srt)
+			h0 := c.ex.heap(c.old, hn, srt)
+			return TT{T: mk(SBool, fmt.Sprintf("(forall ((r Int)) (! (=> (not (= r %s)) (= (select %s r) (select %s r))) :pattern ((select %s r))))", sBase(x.T).S, h1.S, h0.S, h1.S)), Ty: boolT}
 		case "newbuf":
 			// x is a *bytes.Buffer allocated since the old state (a fresh capture buffer)
 			if c.old == nil {
